@@ -400,6 +400,17 @@ on_fault(int sig, siginfo_t *si, void *uc_)
         _exit(3);
 }
 
+#include <sys/time.h>
+// CPU-time watchdog (ITIMER_PROF counts user+system time of this process, so machine load cannot trip it)
+void
+watchdog(int cpu_seconds)
+{
+        struct itimerval it;
+        memset(&it, 0, sizeof it);
+        it.it_value.tv_sec = cpu_seconds;
+        setitimer(ITIMER_PROF, &it, nullptr);
+}
+
 void
 install_handlers()
 {
@@ -424,7 +435,7 @@ install_handlers()
         sigaction(SIGBUS, &sa, nullptr);
         sigaction(SIGILL, &sa, nullptr);
         sigaction(SIGFPE, &sa, nullptr);
-        sigaction(SIGALRM, &sa, nullptr); // watchdog: a library call that never returns
+        sigaction(SIGPROF, &sa, nullptr); // watchdog (CPU time of this process): a library call that never returns
 }
 
 // find the caller object nearest to a faulting address
@@ -1433,7 +1444,7 @@ run_plan(const Plan &p, const RunOpts &o)
         int sig = sigsetjmp(g_jmp, 1);
         if (sig == 0) {
                 g_jmp_armed = 1;
-                alarm(20); // no simulated run takes more than a second or two; a spinning library call ends the run here
+                watchdog(45); // CPU seconds: no simulated run needs more than a few; a spinning library call ends the run here
                 for (size_t i = 0; i < c.tasks.size(); i++) {
                         if (o.only_task >= 0 && (int) i != o.only_task)
                                 continue;
@@ -1513,14 +1524,14 @@ run_plan(const Plan &p, const RunOpts &o)
                         }
         done:
                 g_jmp_armed = 0;
-                alarm(0);
+                watchdog(0);
         } else {
                 // a signal ended the run
-                alarm(0);
+                watchdog(0);
                 res.crashed = true;
                 char b[256];
-                if (sig == SIGALRM) {
-                        snprintf(b, sizeof b, "%s did not return within 20 s (op %d): the library is spinning", g_callctx.name, c.op_index);
+                if (sig == SIGPROF) {
+                        snprintf(b, sizeof b, "%s did not return within 45 s of CPU time (op %d): the library is spinning", g_callctx.name, c.op_index);
                         Violation v;
                         v.prop = p.prop;
                         v.oracle = "hang";
